@@ -1,5 +1,7 @@
 package main
 
+import "go/ast"
+
 // Fact ConstsC08: NTLMSSP signature, message types, negotiate flags, AV ids, field-descriptor offsets of the three
 // messages, the target-info framing and the SPNEGO object identifiers (C08).
 
@@ -30,6 +32,10 @@ func init() {
 		c.shapeOf("neg_domainOffset_shape", n.assign("domainOffset", -1))
 		c.shapeOf("neg_workstationOffset_shape", n.assign("workstationOffset", -1))
 		c.putOrder("neg_puts", n)
+		// the length guard in front of the writes: `len(domainBytes) > 0xFFFF || len(workstationBytes) > 0xFFFF`
+		c.int1Of("neg_maxDomain", n.cmp("len(domainBytes)", tokGTR, -1))
+		c.int1Of("neg_maxWorkstation", n.cmp("len(workstationBytes)", tokGTR, -1))
+		c.shapeOf("neg_lengthGuard_shape", n.cond("len(domainBytes) >", -1))
 
 		a := p.fn("CreateAuthenticateMessage")
 		c.int1Of("auth_headerSize", a.assign("headerSize", -1))
@@ -39,6 +45,18 @@ func init() {
 		}
 		c.texts("auth_offset_shapes", a, offs)
 		c.putOrder("auth_puts", a)
+		// the length guard: `for _, field := range [][]byte{…} { if len(field) > 0xFFFF { return nil, … } }`
+		c.int1Of("auth_maxField", a.cmp("len(field)", tokGTR, -1))
+		gf := a.rangeOver("field")
+		lit, ok := gf.n.(*ast.CompositeLit)
+		if !ok {
+			c.failf("CreateAuthenticateMessage: the length guard does not range over a composite literal")
+		}
+		var guarded []string
+		for _, e := range lit.Elts {
+			guarded = append(guarded, render(e))
+		}
+		c.texts("auth_guardedFields", gf, guarded)
 		c.shapeOf("auth_version_shape", a.cond("NTLMSSP_NEGOTIATE_VERSION", 0))
 		mk := a.callsWith(func(s string) bool { return s == "make" })
 		if len(mk) < 2 {
